@@ -21,6 +21,8 @@
 (* the statements that follow with path \o <<name>>.                       *)
 (*                                                                         *)
 (* Values: [t |-> "none"] (a class)  [t |-> "n", n |-> Int]                *)
+(*         [t |-> "N", N |-> "<decimal digits>"]  a whole number beyond    *)
+(*         TLC's 32 bit integers (written as a hexadecimal literal)        *)
 (*         [t |-> "s", s |-> STRING] [t |-> "a", a |-> Seq(Value)]         *)
 (*                                                                         *)
 (* State st = [nodes, file]; nodes is a sequence, node 1 is configFile:    *)
@@ -59,6 +61,7 @@ RootName == "config/bin"
 Missing == "m"                       \* a name that is never defined
 NoVal == [t |-> "none"]
 Num(k) == [t |-> "n", n |-> k]
+Big(d) == [t |-> "N", N |-> d]
 Str(s) == [t |-> "s", s |-> s]
 Arr(a) == [t |-> "a", a |-> a]
 
@@ -161,7 +164,8 @@ Inside(st, j, d) == IF j = 0 THEN FALSE ELSE IF j = d THEN TRUE ELSE Inside(st, 
 (* reference queries (the operators of ops_config.cpp on a non-null node)  *)
 
 LiveEnts(st, c) == SelectSeq(Ents(st, c), LAMBDA e : e.id # 0)
-QIsNumber(st, id) == st.nodes[id].val.t = "n"
+IsNumVal(v) == v.t \in {"n", "N"}
+QIsNumber(st, id) == IsNumVal(st.nodes[id].val)
 QIsText(st, id) == st.nodes[id].val.t = "s"
 QIsArray(st, id) == st.nodes[id].val.t = "a"
 QIsClass(st, id) == st.nodes[id].val.t = "none"
@@ -322,7 +326,7 @@ ReadBack(st, op, st2) ==
         LET r == Lookup(st2, Target(op))
         IN /\ r > 0
            /\ st2.nodes[r].val = op.val
-           /\ QIsNumber(st2, r) = (op.val.t = "n") /\ QIsText(st2, r) = (op.val.t = "s")
+           /\ QIsNumber(st2, r) = IsNumVal(op.val) /\ QIsText(st2, r) = (op.val.t = "s")
            /\ QIsArray(st2, r) = (op.val.t = "a") /\ ~QIsClass(st2, r)
 
 \* re-opening a class merges: whatever the body held before is still there, in the same order,
